@@ -2,7 +2,25 @@
 
 package hls
 
-import "github.com/q191201771/naza/pkg/filesystemlayer"
+import (
+	"time"
+
+	"github.com/q191201771/naza/pkg/filesystemlayer"
+)
 
 // VerifSetFsl installs a file-system layer (an instrumented in-memory one for the checks).
 func VerifSetFsl(f filesystemlayer.IFileSystemLayer) { fslCtx = f }
+
+// VerifTickerPeriod, when non-zero, replaces the period of the session-sweep ticker (vgen rewrites
+// time.NewTicker in server_handler.go to verifNewTicker).
+var VerifTickerPeriod time.Duration
+
+func verifNewTicker(d time.Duration) *time.Ticker {
+	if VerifTickerPeriod != 0 {
+		d = VerifTickerPeriod
+	}
+	return time.NewTicker(d)
+}
+
+// VerifSweep runs the body of the sweep once.
+func VerifSweep(s *ServerHandler) { s.clearExpireSession() }
